@@ -359,6 +359,9 @@ M('twin-tool-collision-counter-bounded-loop', 'twin', ['C20', 'C18'], [],
   [(GEN, "        while True:\n            if is_dir:\n                tmp = '%s%.03d' % (prefix, currnum)", "        while currnum < 1000:\n            if is_dir:\n                tmp = '%s%.03d' % (prefix, currnum)"),
    (GEN, "            currnum += 1\n            if currnum == 1000:\n                return None\n", "            currnum += 1\n        else:\n            return None\n")])
 
+M('twin-new-bounded-counter-loop-in-parser', 'twin', ['C15'], [],
+  [(PY, "        offset = 0\n        out = []\n        extent_to_ptr = {}\n", "        offset = 0\n        out = []\n        extent_to_ptr = {}\n        tries = 0\n        while tries < 3:\n            tries += 1\n")])
+
 
 def applicable(m, sources):
     for rel, old, new in m['edits']:
